@@ -51,7 +51,7 @@ def body(m):
 
 
 def encode_udp(m):
-    return bytes([0x40 | (m["typ"] & 3) << 4 | (len(m["tok"]) & 0xf), m["code"]]) + (m["mid"] & 0xffff).to_bytes(2, "big") + m["tok"] + body(m)
+    return bytes([0x40 | (m["typ"] & 3) << 4 | (len(m["tok"]) & 0xf), m["code"] & 0xff]) + (m["mid"] & 0xffff).to_bytes(2, "big") + m["tok"] + body(m)
 
 
 def encode_tcp(m):
@@ -65,7 +65,7 @@ def encode_tcp(m):
         nib, x = 14, (n - 269).to_bytes(2, "big")
     else:
         nib, x = 15, (n - 65805).to_bytes(4, "big")
-    return bytes([nib << 4 | (len(m["tok"]) & 0xf)]) + x + bytes([m["code"]]) + m["tok"] + b
+    return bytes([nib << 4 | (len(m["tok"]) & 0xf)]) + x + bytes([m["code"] & 0xff]) + m["tok"] + b
 
 
 def rbytes(rng, n):
@@ -138,7 +138,10 @@ def tcp_len_class(m, target, rng):
 def gen_invalid(rng, coder):
     """Outside the preconditions in the 'must be refused' class, or merely ill-formed (judge: skip)."""
     m = gen_wf(rng, coder)
-    k = rng.randrange(8)
+    k = rng.randrange(9)
+    if k == 8:
+        m["code"] = rng.choice([256, 257, 300, 325, 511, 512, 4096, 65535, 256 + m["code"]])   # codes.Code is uint16
+        return m
     if k == 0:
         m["tok"] = rbytes(rng, rng.choice([9, 10, 15, 16, 17, 255]))
     elif k == 1:
